@@ -627,7 +627,7 @@ pub fn run_case_tuned(p: &Prog, rng: &mut Rng, script: Option<Vec<usize>>, manua
                 1120 => out.push((site, 0, b as u64)),
                 121 => out.push((site, cell_of(&canon, a), 0)),
                 122 | 123 | 1022 => out.push((site, cell_of(&canon, a), cw(&canon, b) as u64)),
-                100..=119 | 130 | 1000..=1021 | 1100..=1102 | 1108 | 1130 => {
+                100..=119 | 130 | 1000..=1021 | 1100..=1102 | 1108 | 1130 | 1132 => {
                     let id = canon.get(a);
                     if site == 1100 {
                         *dealloc_seen.entry(id).or_insert(0) += 1;
